@@ -276,6 +276,9 @@ pub struct Machine {
     /// file): what a reader, or a kill, at that instant would find there.
     pub watch_path: Option<PathBuf>,
     pub watch_log: Vec<Option<Vec<u8>>>,
+    /// Writes to the processes' stderr fail (stderr is a full device or a pipe
+    /// whose reader is gone).
+    pub stderr_broken: bool,
 }
 
 /// Everything that belongs to one process rather than to the machine.
@@ -421,6 +424,7 @@ impl Machine {
             conc: None,
             watch_path: None,
             watch_log: Vec::new(),
+            stderr_broken: false,
         }
     }
 
